@@ -192,4 +192,70 @@ mod verif_cmap_reader {
         kani::cover!(r.is_some() && it.cur_group_ix == ix + 2);
         kani::cover!(r.is_none());
     }
+
+    // OpenType format 14: the selector record for `sel` (records sorted by selector); a code point inside one of the
+    // record's Default UVS ranges => use the default mapping; else its Non-Default UVS mapping => that glyph; else none
+    fn spec14(t: &Cmap14, cp: u32, sel: u32) -> Option<MapVariant> {
+        let recs = t.var_selector();
+        let mut i = 0;
+        while i < recs.len() {
+            let rec = &recs[i];
+            if rec.var_selector().to_u32() == sel {
+                if let Some(Ok(d)) = rec.default_uvs(t.offset_data()) {
+                    let rs = d.ranges();
+                    let mut k = 0;
+                    while k < rs.len() {
+                        let start = rs[k].start_unicode_value().to_u32();
+                        if start <= cp && cp <= start + rs[k].additional_count() as u32 { return Some(MapVariant::UseDefault); }
+                        k += 1;
+                    }
+                }
+                let nd = rec.non_default_uvs(t.offset_data())?.ok()?;
+                let ms = nd.uvs_mapping();
+                let mut k = 0;
+                while k < ms.len() {
+                    if ms[k].unicode_value().to_u32() == cp { return Some(MapVariant::Variant(GlyphId::from(ms[k].glyph_id()))); }
+                    k += 1;
+                }
+                return None;
+            }
+            i += 1;
+        }
+        None
+    }
+    //@harness unit=U08.5 props=C08,C01 tier=quick level=bounded bound="any bytes <=56 B forming <=2 selector records (sorted), <=2 default ranges and <=2 non-default mappings per record (sorted); every code point and selector" timeout=1200 fns=Cmap14::map_variant
+    #[kani::proof]
+    #[kani::unwind(5)]
+    fn cmap14_reader_matches_spec() {
+        let buf: [u8; 56] = kani::any();
+        let len: usize = kani::any();
+        kani::assume(len <= 56);
+        let Ok(t) = Cmap14::read(FontData::new(&buf[..len])) else { return; };
+        let recs = t.var_selector();
+        kani::assume(recs.len() <= 2);
+        if recs.len() == 2 { kani::assume(recs[0].var_selector().to_u32() < recs[1].var_selector().to_u32()); }
+        let mut i = 0;
+        while i < recs.len() {
+            if let Some(Ok(d)) = recs[i].default_uvs(t.offset_data()) {
+                let rs = d.ranges();
+                kani::assume(rs.len() <= 2);
+                if rs.len() == 2 {
+                    kani::assume(rs[0].start_unicode_value().to_u32() + (rs[0].additional_count() as u32) < rs[1].start_unicode_value().to_u32());
+                }
+            }
+            if let Some(Ok(nd)) = recs[i].non_default_uvs(t.offset_data()) {
+                let ms = nd.uvs_mapping();
+                kani::assume(ms.len() <= 2);
+                if ms.len() == 2 { kani::assume(ms[0].unicode_value().to_u32() < ms[1].unicode_value().to_u32()); }
+            }
+            i += 1;
+        }
+        let cp: u32 = kani::any();
+        let sel: u32 = kani::any();
+        let got = t.map_variant(cp, sel);
+        assert!(got == spec14(&t, cp, sel));
+        kani::cover!(recs.len() == 2 && matches!(got, Some(MapVariant::UseDefault)) && sel == recs[0].var_selector().to_u32());
+        kani::cover!(recs.len() == 2 && matches!(got, Some(MapVariant::Variant(_))) && sel == recs[1].var_selector().to_u32());
+        kani::cover!(got.is_none());
+    }
 }
